@@ -99,6 +99,12 @@ def families(tier):
         out.append({"name": kind + ":maintenance-vs-maintenance", "kind": kind, "w": ws, "cfg": cfgs, "setup": over, "fire": "all",
                     "parts": [[G.op(0, "set", K2, "W2W2W2", 1)], [G.op(0, "put", ("k3", 7, 9), "W3W3W3", 1), GET]],
                     "values": {fnv_show(v) for v in (BIG1, "V0V0V0", "W2W2W2", "W3W3W3")}})
+        # maintenance EVICTS the very entry a concurrent put finds already present: between the put's
+        # failed link (EEXIST) and its touch of the existing entry, the entry can vanish
+        evict = list(cfgs) + [G.plant(kp, "V0V0V0", mtime=G.T0, atime=G.T0 - 120 * 10**9)] + [G.plant("%s/%s" % (d, n), "x", mtime=G.T0 + 10 + i) for i, n in enumerate(("a", "b"))]
+        out.append({"name": kind + ":maintenance-evicts-vs-put", "kind": kind, "w": ws, "cfg": cfgs, "setup": evict, "fire": 0, "dense": True,
+                    "parts": [[G.op(0, "set", K2, "W2W2W2", 1)], [P2, GET]],
+                    "values": {fnv_show(v) for v in ("V0V0V0", "W2W2W2", "P2P2P2")}})
     return out
 
 
